@@ -224,7 +224,7 @@ impl Scenario for PolySplit {
         let forced_bias = rng.chance(1, 8);
         let big = tier == Tier::Thorough || rng.chance(1, 10);
         let max_handles = rng.range(1, 3) as usize;
-        let nops = rng.range(1, 16);
+        let nops = if rng.chance(1, 300) { rng.range(300, 700) } else { rng.range(1, 16) };
         let fork_w = if rng.chance(1, 2) { 2 } else { 0 };
         let mut left = vec![Some(0usize)];
         for _ in 0..nops {
